@@ -59,3 +59,7 @@ package modproof
 //@   ensures [C10.arity] result1 == nil ==> (len(bzs) == 163 && result0 != nil && fresh(result0) && result0.W != nil && result0.A != nil && result0.B != nil)
 //@   loop 0 invariant len(bis) == len(bzs) && fresh(bis)
 //@   loop 0 invariant forall k in 0..$iter :: (bis[k] != nil && fresh(bis[k]) && allocated(bis[k]) && val(bis[k]) >= 0)
+
+//@ func (*ProofMod).Bytes
+//@   props C06
+//@   requires pf != nil && pf.W != nil && pf.A != nil && pf.B != nil
